@@ -20,7 +20,7 @@ HC = 'yui_homology::utils::homology_calc::HomologyCalc::<R>::'
 
 
 def sk(t):
-    return canon(re.sub(r'#\d+\.\d+', '', show(t, -60)))
+    return canon(re.sub(r'#(?:i\d+:)?\d+\.\d+', '', show(t, -60)))
 
 
 def canon(s):
@@ -284,7 +284,7 @@ def check_summand(facts, rep):
     S = 'yui_homology::conc::summand::Summand::<X, R>::'
 
     def dk(t):
-        return re.sub(r'\^_ref__', '^', re.sub(r'#\d+\.\d+', '', show(t, -1000))).replace('&', '').replace('*', '')
+        return re.sub(r'\^_ref__', '^', re.sub(r'#(?:i\d+:)?\d+\.\d+', '', show(t, -1000))).replace('&', '').replace('*', '')
 
     def rets(name):
         b = facts.bodies.get(S + name)
